@@ -331,7 +331,7 @@ class Executor:
         cur = cell.val
         k = ops.deref(st, k)
         vv = ops.deref(st, v)
-        if isinstance(cur, VEmptyMap):
+        if isinstance(cur, (VEmptyMap, VEmptyDefault)):
             raise Unsupported(f"dict of unknown kind at line {self.line(node)}; declare a local kind")
         if isinstance(cur, VMap):
             cell.val = cur.put(ops.coerce(st, k, cur.key), ops.coerce(st, vv, cur.val))
